@@ -155,6 +155,21 @@ def run(ctx, rep):
     lu = prog.fn_by_path(PC + "conversion::luma")
     ro = fold(strip_refs(Origins(lu).return_origin()))
     m = match(ro, ("bin", "Div", ("bin", "Add", "?sum", ("const", "?round")), ("const", "?div")))
+    if m is None or not any(n[0] == "bin" and n[1] == "Mul" for n in walk(m["?sum"])) or any(n[0] == "call" and n[1].split("::")[-1] in ("sum", "fold") for n in walk(m["?sum"])):
+        # an iterator chain over the channels (`iter().zip(WEIGHTS).map(..).sum()`): the single path summary carries the
+        # sum it stands for (A.9: sequences of statically known elements)
+        try:
+            from mirq import paths as _pp
+            ss = _pp.Paths(prog, inline=lambda g: prog.is_new(g)).of(lu)
+            if len(ss) == 1 and not ss[0].facts and not ss[0].effects:
+                r2 = fold(strip_refs(ss[0].ret))
+                while r2[0] == "cast":
+                    r2 = r2[1]
+                m2 = match(r2, ("bin", "Div", ("bin", "Add", "?sum", ("const", "?round")), ("const", "?div")))
+                if m2 is not None:
+                    ro, m = r2, m2
+        except _pp.Unsupported:
+            pass
     coeff = {}
     ok = m is not None
     if ok:
